@@ -21,9 +21,17 @@ title version description termsOfService contact license name url email get put 
 type format items collectionFormat default maximum exclusiveMaximum minimum exclusiveMinimum maxLength minLength pattern maxItems minItems uniqueItems enum multipleOf
 required in allowEmptyValue properties additionalProperties allOf discriminator readOnly xml example flow scopes authorizationUrl tokenUrl namespace prefix attribute wrapped $ref""".split())
 
+NAME_CONTAINERS = {"definitions", "securityDefinitions", "properties", "headers", "scopes", "examples"}
+
 def generalise(path):
     out = []
-    for t in path:
+    prev = None
+    for depth, t in enumerate(path):
+        container = prev in NAME_CONTAINERS or (depth == 1 and prev in ("parameters", "responses"))
+        prev = t if not container else "<name>"
+        if container and not isinstance(t, int):
+            out.append("<name>")
+            continue
         if isinstance(t, int):
             out.append("[i]")
         elif t in KEYWORDS or t == "default":
